@@ -6,7 +6,7 @@ INFO = {
                    "description with arbitrary stored words; the read buffer is an object that ends exactly after n "
                    "words (any write past it is an array-bounds failure) and the words in front of it are compared; "
                    "the iteration callback logs handles and returns a scripted symbolic verdict per call.",
-    "bounds": {"quick": {"NAREA": 2, "NREG": 3, "AWORDS": 6, "NMAX": 5, "addr": "all 32 bits", "range length": "all 32 bits, no wrap"},
+    "bounds": {"quick": {"NAREA": "2 (3 with one register for reads of 2 words)", "NREG": 3, "AWORDS": 6, "NMAX": 5, "addr": "all 32 bits", "range length": "all 32 bits, no wrap"},
                "thorough": {"NAREA": 3, "NREG": 4, "AWORDS": 6, "NMAX": 8}},
     "outside_bounds": ["larger tables / longer reads", "ranges whose end wraps 2^32 (documented REGISTER_ADDRESS_MAX idiom)",
                        "custom read callbacks that fail", "areas without read callback in the iteration instance",
@@ -36,6 +36,14 @@ def instances(tier):
         d["NFIX"] = nfix
         d["NMAX"] = max(nfix, 1)
         out.append(mk("c03_read_n%d" % nfix, "C03/c03.c", [], d, unwind=UW, default_unwind=3, encoded_units=ENC,
+                      fp_removal=True, timeout=2400, object_bits=12))
+    if tier == "quick":
+        # three areas (an empty area listed between two adjacent ones: seed C03-H), one register, reads of 2 words
+        d = {"NAREA": 3, "NREG": 1, "AWORDS": aw, "NMAX": 2, "MODE_READ": None, "NFIX": 2}
+        uw = dict(UW)
+        uw.update({"vp_build": 6, "vp_desc_wellformed": 5, "ref_area_of": 5, "ref_layout_ok": 5, "vp_link_direct": 5,
+                   "ra_find_area_by_addr": 5, "find_area": 5})
+        out.append(mk("c03_read_a3_n2", "C03/c03.c", [], d, unwind=uw, default_unwind=3, encoded_units=ENC,
                       fp_removal=True, timeout=2400, object_bits=12))
     d = dict(D)
     d["MODE_ITER"] = None
